@@ -212,11 +212,10 @@ def generate(ctx, core, pref):
             cfg = core.cfg_with("ComposeAccessGen.cfg", ["CONSTRAINT EmitLast"], consts)
             ctx.require_ok(ctx.tlc("ComposeAccessGen", cfg_text=cfg, constants=consts, on_emit=out.append, timeout=1800))
         return out
-    d = 3 if ctx.quick else 4
-    cases += gen(["images", "info"], d)
-    cases += gen(["rpms", "modules"], d)
-    if not ctx.quick:
-        cases += gen(["images"], 5)
+    # thorough: depth 4 for the pair with a two-name kind (about 190 000 histories; depth 4 for both pairs plus depth 5 for one kind
+    # took over an hour of replay on a loaded machine and found nothing the shallower tiers had not)
+    cases += gen(["images", "info"], 3 if ctx.quick else 4)
+    cases += gen(["rpms", "modules"], 3)
     cases += gen(["info", "images", "rpms", "modules"], 12, simulate=150 if ctx.quick else 4000)
     seen, uniq = set(), []
     for c in cases:
